@@ -91,6 +91,7 @@ type Enc struct {
 	fresh    int
 	tags     map[string]int // dynamic type tags
 	tagNames []string
+	tagTypes map[int]types.Type
 	lits     map[string]Term // string literals
 	litOrder []string
 	fnIDs    map[string]int
@@ -160,6 +161,10 @@ func (e *Enc) Tag(t types.Type) int {
 	n := len(e.tags) + 1
 	e.tags[k] = n
 	e.tagNames = append(e.tagNames, k)
+	if e.tagTypes == nil {
+		e.tagTypes = map[int]types.Type{}
+	}
+	e.tagTypes[n] = t
 	return n
 }
 
@@ -212,7 +217,7 @@ func (e *Enc) Preamble() string {
 	b.WriteString("(assert (forall ((s Str)) (! (>= (slen s) 0) :pattern ((slen s)))))\n")
 	b.WriteString("(assert (forall ((s Str)) (! (=> (= (slen s) 0) (= s str_empty)) :pattern ((slen s)))))\n")
 	b.WriteString("(assert (forall ((s Str) (i Int)) (! (and (<= 0 (sat s i)) (<= (sat s i) 255)) :pattern ((sat s i)))))\n")
-	b.WriteString("(declare-fun subkind (Ref) Int)\n")
+	b.WriteString("(declare-fun subkind (Ref) Int)\n(declare-fun rootof (Ref) Ref)\n")
 	return b.String()
 }
 
